@@ -639,6 +639,16 @@ pub fn process<I: BufRead, O: Write>(
                             rex = rex.strip_suffix(',').unwrap().to_string();
                         }
                         rex += "\\)";
+                        // The pattern may be refused (a parameter name that is no identifier,
+                        // too many parameters for the regex engine)
+                        if Regex::new(&rex).is_err() {
+                            return Err(Error::Syntax {
+                                filename: filename.clone(),
+                                included_in: included_in.clone(),
+                                line,
+                                msg: format!("Macro {} has parameters that cannot be handled", mcro),
+                            });
+                        }
                         value = value.replace("##", ""); // Double hash
                         debug!("regex:{}", &rex);
                         context.define_ex(mcro, (rex, value));
